@@ -101,7 +101,7 @@ func (w *World) earlyExits(pkgPrefixes ...string) []earlyExit {
 				parts = append(parts, f)
 			}
 			for cl := range a.Calls {
-				if cl = strings.TrimPrefix(cl, "inlined:"); !isPlumbingCall(cl) {
+				if cl = normCallName(strings.TrimPrefix(cl, "inlined:")); !isPlumbingCall(cl) {
 					parts = append(parts, "call:"+cl)
 				}
 			}
